@@ -64,7 +64,13 @@ impl Shape {
 /// Stratified generator of valid configurations with at most `max_kt` symbols in total and symbol
 /// size at most `max_t` bytes.
 pub fn gen_shape(rng: &mut Rng, max_kt: usize, max_t: usize, max_z: usize) -> Shape {
-    let Al = *rng.pick(&[1usize, 1, 2, 4, 8, 8]);
+    // the alignment parameter is any value 1..=255 (powers of two are merely what the defaults produce)
+    let Al = loop {
+        let a = *rng.pick(&[1usize, 1, 2, 4, 8, 8, 3, 5, 6, 7, 10, 12, 16, 24]);
+        if a <= max_t.max(8) {
+            break a;
+        }
+    };
     let max_units = (max_t / Al).max(1);
     let units = match rng.below(4) {
         0 => rng.range(1, 4.min(max_units as u64)) as usize,
